@@ -75,17 +75,17 @@ type c08sig struct {
 
 // descriptor shapes
 type c08dshape struct {
-	foreign  bool
-	flen     int // foreign body length
-	cancel   bool
-	program  bool
-	ncomp    int
-	hasDur   bool
-	dnr      bool
-	upidLen  int   // single UPID length (isMID false)
-	isMID    bool
-	mid      []int // element lengths
-	sub      int   // 0 none, 0x34 / 0x36: sub-segment bytes present with that type
+	foreign bool
+	flen    int // foreign body length
+	cancel  bool
+	program bool
+	ncomp   int
+	hasDur  bool
+	dnr     bool
+	upidLen int // single UPID length (isMID false)
+	isMID   bool
+	mid     []int // element lengths
+	sub     int   // 0 none, 0x34 / 0x36: sub-segment bytes present with that type
 }
 
 // command shapes
